@@ -15,7 +15,7 @@ ASSUMPTIONS = [
     "pre-emption inside an evaluation is outside the model; it can reach the code only through the completion order and the shared generator, both modelled",
     "pairwise distinct initial points: numpy's continuous samplers return distinct values with probability 1 (checked on continuous tasks)",
 ]
-MODULES = ["PvModel.Props.C11", "PvModel.Props.T11", "PvModel.Props.T01", "PvModel.Props.T05", "PvModel.Props.R10", "PvModel.Props.R11", "PvModel.Props.T02"]
+MODULES = ["PvModel.Props.C11", "PvModel.Props.T11", "PvModel.Props.T01", "PvModel.Props.T05", "PvModel.Props.R10", "PvModel.Props.R11", "PvModel.Props.R12", "PvModel.Props.T02"]
 
 
 def pooled_combinators(job):
